@@ -42,4 +42,16 @@ PROPS = {
         "trivial_tags": [r":bad-op"],
         "assumptions": ["well-formed message = WfMsg (Spec/Wire.lean); RDATA or section counts >= 65536 make to_octets fail, as the property allows"],
     },
+    "C02": {
+        "modules": ["Resolved.Props.C02"],
+        "streams": [{"name": "zone-resolve", "quick": 30000, "thorough": 600000}],
+        "trivial_tags": [r":bad-op", r"none/outside"],
+        "assumptions": ["D1: zones holding records strictly beneath a delegation point are outside the spec oracle (still in Impl-vs-Model)"],
+    },
+    "C12": {
+        "modules": ["Resolved.Props.C12"],
+        "streams": [{"name": "zones-merge", "quick": 20000, "thorough": 400000}],
+        "trivial_tags": [r":bad-op", r":nozone"],
+        "assumptions": ["directory enumeration and path ordering by the OS/std are observed through the binary, not modelled"],
+    },
 }
